@@ -28,6 +28,7 @@ type crCase struct {
 	Jit         int    `json:"jitter_ms"`
 	Settle      bool   `json:"settle"`
 	LineVariant int    `json:"line_variant"` // which output a plugin dying while printing leaves behind
+	Block       bool   `json:"block"`        // the host dials its main gRPC connection with grpc.WithBlock()
 }
 
 type crCall struct {
@@ -45,6 +46,7 @@ func runCrashCase(c crCase, bin, tmp string) map[string]interface{} {
 	wire, mux := protoSets(c.Proto)
 	pc := &vp.PluginCfg{LegacyVersion: 1, Legacy: &vp.SetCfg{Proto: wire, Tag: "1"}, GRPCServer: wire == "grpc"}
 	hc := &vp.HostCfg{LegacyVersion: 1, Legacy: &vp.SetCfg{Proto: "grpc", Tag: "1"}, Allowed: []string{"netrpc", "grpc"}, Mux: mux, TempDir: tmp, StartTimeoutMs: 5000}
+	hc.DialBlock = c.Block
 	switch c.Point {
 	case "before_output":
 		pc.Crash = &vp.CrashCfg{Event: pick(c.Jit, "serve.cookie.ok", "serve.listen", "serve.line.printing"), How: c.How}
